@@ -2,6 +2,7 @@ import Logrange.Proofs.RdPos
 import Logrange.Proofs.RdIterFwd
 import Logrange.Proofs.RdPaging
 import Logrange.Proofs.RdQueryLift
+import Logrange.Proofs.RdResend
 import Logrange.Generated.C03
 /-!
 # C03 — Paged and resumed reading delivers every matching event exactly once
@@ -171,20 +172,44 @@ theorem paging_j3 :
 
 /-! ## open findings: counterexamples evaluated on the model -/
 
-/-- #22: a held cursor, WHERE; page 1, page 2, then page 2's request again (same id, the older position):
-the repeated answer differs from page 2 — it starts with the event the fiterator had buffered. -/
-theorem cex_stale_buffer_same_id_older_pos :
+/-- #22: a held cursor, WHERE; page 1, page 2, then page 2's request again (same id, the older position).
+With the code as it is (regenerated fact `applyStateDropsBuffers = false`) the repeated answer differs from page 2 —
+it starts with the event the fiterator had buffered; on a tree where `ApplyState` drops the buffers (the proposed
+repair, fact `true`) it repeats page 2. One theorem, valid on both trees. -/
+theorem resend_older_pos_filtered :
     let q : Qry := qAll true
     let j : Journal := [⟨10, [r 0, r 1, r 2, r 3, r 4, r 5], 0, maxU32⟩]
     let (s1, p1) := query queryMaxLimit (onePart j) { query := some q, limit := 2, wait := true }
     let (s2, p2) := query queryMaxLimit s1 p1.next
     let (_, p3) := query queryMaxLimit s2 p1.next
-    p2.events.map (·.lbl) = [2, 3] ∧ p3.events.map (·.lbl) = [4, 3] := by decide +kernel
+    p2.events.map (·.lbl) = [2, 3] ∧
+      (applyStateDropsBuffers = true → p3.events.map (·.lbl) = [2, 3]) ∧
+      (applyStateDropsBuffers = false → p3.events.map (·.lbl) = [4, 3]) := by decide +kernel
+
+/-- With the proposed repair of #22 in the code (regenerated fact `applyStateDropsBuffers = true`), `ApplyState` with
+a position that differs from the held cursor's own yields the re-positioned cursor with its buffers dropped. -/
+theorem applyState_repaired (h : Held) (qt : Nat) (m : List (Nat × Pos)) (hf : applyStateDropsBuffers = true)
+    (hq : h.qtext = qt) (hne : h.pos ≠ .map m) :
+    applyState h qt (.map m) =
+      some { h with pos := .map m, cur := curSetBackward (curSetBackward (applyStatePos h.cur m) true) false } := by
+  simp [applyState, hq, hne, hf]
+
+/-- **a re-sent page is the page a fresh cursor serves** (one partition, un-ranged, ± WHERE; ALL journals, ANY state
+of the held cursor — in particular with an event cached in its fiterator —, any settled position, any limit): the
+re-positioned held cursor of `applyState_repaired` and a new cursor built from the position text deliver the same
+page, the first `lim` matching records from that position. -/
+theorem resent_page_is_fresh_page (name : Nat) (j : Journal) (w : Bool) (c : Cur) (i : Nat) (p : Pos) (lim : Nat)
+    (hs : Sorted j) (h : Abs name j w true c i) (hp : Settled j p) :
+    (pageOn lim (curSetBackward (curSetBackward (applyStatePos c [(name, p)]) true) false)).2.1
+        = (FL j w (flatIdx j p)).take lim ∧
+    (pageOn lim (applyStatePos (mk1 name j w) [(name, p)])).2.1 = (FL j w (flatIdx j p)).take lim :=
+  ⟨(pg_pageOn_abs getFwd nextFwd hs lim (rs_reposition hs h hp)).1,
+   (pg_pageOn_abs getFwd nextFwd hs lim (pg_fresh_abs name j w p)).1⟩
 
 /-- #22 on a merged cursor WITHOUT any filter: the `Mixer`'s selected head survives `ApplyState` as well. Two
 partitions, page 1, page 2, page 2's request again: the repeated page starts with the stale head and event 1 is
 lost. -/
-theorem cex_stale_mixer_head_merged :
+theorem resend_older_pos_merged :
     let q : Qry := qAll false
     let rt (l : Nat) (t : Int) : Rec := { lbl := l, ts := t }
     let s0 : Server := { store := [(0, [⟨10, [rt 0 10, rt 1 12, rt 2 14], 0, maxU32⟩]),
@@ -193,7 +218,8 @@ theorem cex_stale_mixer_head_merged :
     let (s2, p2) := query queryMaxLimit s1 p1.next
     let (_, p3) := query queryMaxLimit s2 p1.next
     p1.events.map (·.lbl) = [0, 100000] ∧ p2.events.map (·.lbl) = [1, 100001] ∧
-      p3.events.map (·.lbl) = [2, 100001] := by decide +kernel
+      (applyStateDropsBuffers = true → p3.events.map (·.lbl) = [1, 100001]) ∧
+      (applyStateDropsBuffers = false → p3.events.map (·.lbl) = [2, 100001]) := by decide +kernel
 
 /-! ### a chain that starts while no partition matches (finding #35, repaired by a8a4a54) -/
 
